@@ -192,6 +192,19 @@ def run(ctx: Ctx) -> None:
         diff = {k: v for k, v in table.items() if len(v) > 1 and len({repr(x) for x in v.values()}) > 1}
         ctx.check(not diff, "L7", " / ".join(g.split(".")[1] for g in group) + " defaults", repo.loc("utils", repo.func(group[0])), f"{sorted(k for k, v in table.items() if len(v) > 1)} agree", f"the sibling functions disagree on the default of {diff}: the same call gives different results through the file, stream and string front end")
 
+    # ---- L9 --------------------------------------------------------------------------------------
+    ctx.rule("L9", "Parser.open_file hands back what it read from the file in this very call, on every path (no text kept from an earlier call), so open() sees what save / dump / any other writer last put there", 1)
+    of = repo.func("parser.Parser.open_file")
+    reads = [c for c in calls_in(of) if isinstance(c.func, ast.Attribute) and c.func.attr == "read"]
+    read_names = set()
+    for n in ast.walk(of):
+        if isinstance(n, ast.Assign) and any(n.value is r for r in reads):
+            read_names |= {t.id for t in n.targets if isinstance(t, ast.Name)}
+    multi = {nm for nm in read_names if sum(1 for n in ast.walk(of) if isinstance(n, (ast.Assign, ast.AugAssign)) and any(isinstance(t, ast.Name) and t.id == nm for t in (n.targets if isinstance(n, ast.Assign) else [n.target]))) > 1}
+    rets = [n for n in ast.walk(of) if isinstance(n, ast.Return)]
+    bad_rets = [norm(r) for r in rets if not (r.value is not None and (any(r.value is c for c in reads) or (isinstance(r.value, ast.Name) and r.value.id in read_names - multi)))]
+    ctx.check(bool(rets) and bool(reads) and not bad_rets, "L9", "open_file: every return is this call's read", repo.loc("parser", of), f"{len(rets)} return(s), {len(reads)} read(s)", f"open_file has the return(s) {bad_rets} that do not hand back the text read in this call: a file rewritten since an earlier call is opened with its old content")
+
     # ---- L6 --------------------------------------------------------------------------------------
     ctx.rule("L6", "the include pre-pass every loader runs by default puts the text back together with exactly the separator it cut it with, so characters of a quoted value (including unusual line breaks) reach the parser unchanged", 1)
     from .c15 import split_join_pairing
